@@ -177,6 +177,7 @@ def check_lookup(ctx, prog, R, fn):
                 ctx.check(cand_ok(cur), "lookup-result", "current", "first component of the lookup result is not the matched candidate offset (%s)" % cur, where=where(fn, b))
                 ctx.check(bool(prv) and any(zero(x) for x in prv) and all(zero(x) or is_role_origin(prog, R, fn, x, "HEAD_READ") or is_role_origin(prog, R, fn, x, "NEXT_AT") for x in prv),
                           "lookup-result", "previous", "second component of the lookup result is not the previously examined offset (zero for the chain head) (%s)" % prv, where=where(fn, b))
+                _lockstep(ctx, prog, R, fn, o, ci, pi)
             else:
                 ctx.fail("lookup-result", "shape", "the lookup's Some payload is not a (current, previous) tuple", where=where(fn, b))
     # the stored key is read with the stored length at the given offset
@@ -194,6 +195,59 @@ def check_lookup(ctx, prog, R, fn):
     ctx.check(ok and all(bytes_at.dominates(seeks[0][0], b) for b, _ in reads), "stored-key-read", "at-given-offset",
               "the stored key is not read at the offset that was passed in", where=where(bytes_at))
     ctx.sample({"rule": "lookup", "fn": fn.id, "equal_arm_entries": equal_entries, "some_blocks": somes})
+
+
+def _var_of(fn, op):
+    """The (multi-definition) variable a whole-local operand is a copy of."""
+    if op.get("k") not in ("cp", "mv") or op["pl"]["p"]:
+        return None
+    l = op["pl"]["l"]
+    for _ in range(10):
+        ds = fn.defs().get(l, [])
+        if len(ds) == 1 and ds[0][1] == "assign" and not ds[0][2]["lhs"]["p"] and ds[0][2]["rhs"]["rv"] == "use" \
+                and ds[0][2]["rhs"]["a"].get("k") in ("cp", "mv") and not ds[0][2]["rhs"]["a"]["pl"]["p"]:
+            l = ds[0][2]["rhs"]["a"]["pl"]["l"]
+            continue
+        break
+    return l
+
+
+def _lockstep(ctx, prog, R, fn, agg, ci, pi):
+    """`previous` follows `current` in lock-step: every step of the walk that replaces the current offset by its record's
+    next link is preceded, in the same round, by `previous = current` (otherwise a record skipped by a shortcut is not
+    the predecessor delete / re-link will rewrite)."""
+    cur, prv = _var_of(fn, agg.data["ops"][ci]), _var_of(fn, agg.data["ops"][pi])
+    if not ctx.check(cur is not None and prv is not None and cur != prv, "lookup-result", "lockstep:vars",
+                     "cannot identify the variables holding the current and the previous offset in the lookup", where=where(fn, agg.block)):
+        return
+    next_at = R.need("NEXT_AT")
+    adv = []
+    for b, kind, x in fn.defs().get(cur, []):
+        if kind == "call":
+            if any(y.id == next_at.id for y in prog.targets(x, fn)[0]):
+                adv.append((b, len(fn.blocks[b]["stmts"])))
+        elif not x["lhs"]["p"]:
+            os_ = origins(prog, fn, x["rhs"].get("a", {}), at=b) if x["rhs"]["rv"] == "use" else []
+            if os_ and any(is_role_origin(prog, R, fn, o, "NEXT_AT") for o in os_):
+                adv.append((b, fn.blocks[b]["stmts"].index(x)))
+    saves = []
+    for b, kind, x in fn.defs().get(prv, []):
+        if kind == "assign" and not x["lhs"]["p"] and x["rhs"]["rv"] == "use" and _var_of(fn, x["rhs"]["a"]) == cur:
+            saves.append((b, fn.blocks[b]["stmts"].index(x)))
+    if not ctx.check(bool(adv), "lookup-result", "lockstep:advance", "the lookup never replaces the current offset by a stored next link", where=where(fn)):
+        return
+    for ab, ai in adv:
+        ok = False
+        for sb, si in saves:
+            same_round = sb == ab or (ab in fn.reachable_ok(fn.normal_succs(sb)) and sb in fn.reachable_ok(fn.normal_succs(ab)))
+            before = (sb == ab and si < ai) or (sb != ab and fn.dominates(sb, ab))
+            # no other step between the save and this step
+            clean = not any(xb != ab and xb != sb and fn.dominates(sb, xb) and fn.dominates(xb, ab) for xb, _ in adv)
+            if same_round and before and clean:
+                ok = True
+        ctx.check(ok, "lookup-result", "lockstep:previous-saved-before-step",
+                  "the walk steps to the next record of the chain without first recording the record it leaves as `previous` "
+                  "(a later delete / re-link would rewrite the wrong predecessor)", where=where(fn, ab))
 
 
 # --------------------------------------------------------------------------------------------
@@ -341,5 +395,5 @@ def check(ctx):
     # storage-layer integrity rules that the map semantics depend on (corruption of a record, chain or free list changes what get returns)
     import_rules(ctx, "c05", {"insert-links", "overwrite-links", "delete-links", "bucket-index", "field-position", "count-step", "count-arm", "count-writers", "stored-length-read", "payload-is-callers-bytes"})
     import_rules(ctx, "c06", {"free-slot-field-position", "no-lost-link-update", "large-pop-conservation", "large-pop", "push-pop-inverse", "alloc", "writer-arms", "tables", "class-slot", "large-threshold", "delete-pushes-slot"})
-    import_rules(ctx, "c08", {"relink", "abort"})
+    import_rules(ctx, "c08", {"relink", "abort", "refusal"})
     import_rules(ctx, "c09", {"sizer-covers-writer", "slot-honoured", "vu64-reader-consumes-encoded-length"})
